@@ -534,7 +534,13 @@ where
         dup: &mut AHashMap<FastStr, Vec<DefId>>,
     ) {
         let base_mod_name = p.iter().map(|s| s.to_string()).join("/");
-        let mod_file_name = format!("{}/mod.rs", base_mod_name);
+        // items without a package (module path) live directly in the base directory;
+        // "/mod.rs" would be an absolute path
+        let mod_file_name = if base_mod_name.is_empty() {
+            "mod.rs".to_string()
+        } else {
+            format!("{}/mod.rs", base_mod_name)
+        };
         let mut mod_stream = String::new();
 
         let mut existing_file_names: AHashSet<String> = AHashSet::new();
